@@ -265,6 +265,8 @@ def run_history(combined, ops, make_instance):
     answers = []
     steer = None
     try:
+        if (combined.n_cores or 1) > 1 and combined._analysis_pool is not None:
+            steer = Steer(combined._analysis_pool)       # pool created by the constructor (config n_cores)
         for op in ops:
             if op[0] == "cores":
                 if steer is not None:
@@ -312,7 +314,14 @@ def run_case(c, idx):
             comb = comb.with_free_parameters(af.UniformPrior(0.0, 1.0))
         return {"struct": describe(comb)}
     if kind == "hist":
-        comb = build_expr(c["expr"], mk_leaf(c))
+        general = conf.instance["general"]["analysis"]
+        original = general["n_cores"]
+        try:
+            if c.get("conf_cores"):
+                general["n_cores"] = c["conf_cores"]     # read by CombinedAnalysis.__init__
+            comb = build_expr(c["expr"], mk_leaf(c))
+        finally:
+            general["n_cores"] = original
         out = {"struct": describe(comb)}
         out.update(run_history(comb, c["ops"], lambda x: x))
         return out
